@@ -39,11 +39,13 @@ Absorb(st, to) ==
                     !.iso = IF outside THEN st.iso                         \* a block outside the chain is 1 x 1 and normalised (a phase): flags survive
                             ELSE [st.iso EXCEPT ![tgt] = {}]]
 (* SVD of the central block; U goes to the left site, V to the right one; S (normalised) stays central *)
-Diag(st, nz, binding) ==
+(* shrinks: the bond dimension decreases (always when binding; also when exactly-zero Schmidt values of a rank-deficient block are dropped *)
+(* without any weight being discarded): U / V are then non-square isometries and the OPPOSITE flag of the neighbouring site is lost          *)
+Diag(st, nz, binding, shrinks) ==
     IF st.pC = NoC THEN st
     ELSE LET n1 == st.pC  n2 == st.pC + 1
-             keepL(m) == IF binding THEN st.iso[m] \cap {"L"} ELSE st.iso[m]      \* A U with U an isometry stays a left isometry; square U keeps both
-             keepR(m) == IF binding THEN st.iso[m] \cap {"R"} ELSE st.iso[m]
+             keepL(m) == IF binding \/ shrinks THEN st.iso[m] \cap {"L"} ELSE st.iso[m]      \* A U with U an isometry stays a left isometry; square U keeps both
+             keepR(m) == IF binding \/ shrinks THEN st.iso[m] \cap {"R"} ELSE st.iso[m]
              iso2 == [m \in Sites |-> IF m = n1 THEN keepL(m) ELSE IF m = n2 THEN keepR(m) ELSE st.iso[m]]
              st2 == [st EXCEPT !.iso = iso2] IN
          [st2 EXCEPT !.exact = st.exact /\ ~nz /\ ~binding,
@@ -54,7 +56,7 @@ CanonFrom(st, to, nz, k) == IF k > N THEN st ELSE CanonFrom(Absorb(Orth(st, Swee
 Canonize(st, to, nz) == CanonFrom(Absorb(st, to), to, nz, 1)
 RECURSIVE TruncFrom(_, _, _, _, _)
 TruncFrom(st, to, nz, binding, k) == IF k > N THEN st
-                                     ELSE TruncFrom(Absorb(Diag(Orth(st, Sweep(to)[k], to, nz), nz, binding), to), to, nz, binding, k + 1)
+                                     ELSE TruncFrom(Absorb(Diag(Orth(st, Sweep(to)[k], to, nz), nz, binding, binding), to), to, nz, binding, k + 1)
 CanTruncate(st) == st.pC = NoC
 Truncate(st, to, nz, binding) == TruncFrom(st, to, nz, binding, 1)
 SetSite(st, n) == [st EXCEPT !.iso = [st.iso EXCEPT ![n] = {}], !.exact = FALSE, !.unit = FALSE, !.ray = FALSE]
